@@ -204,12 +204,13 @@ Definition run_sexp (spec : bool) (e : sexp) : sexp :=
       if atom_is "code" k then
         match dec_q ast with
         | Some q =>
-            match compile q, option_map (fun c => peephole_arr (tailrec c)) (compile_raw q) with
-            | Some c, Some c2 =>
+            match compile q, option_map (fun c => peephole_arr (tailrec c)) (compile_raw q), compile_tco q with
+            | Some c, Some c2, Some c3 =>
                         let mine := SList (map enc_instr c) in
                         if negb (sexp_eqb mine (SList (map enc_instr c2))) then bad "model-peephole-variants-differ" mine
+                        else if negb (sexp_eqb mine (SList (map enc_instr c3))) then bad "model-tailrec-variants-differ" (SList (map enc_instr c3))
                         else if sexp_eqb mine (SList impl) then A "ok" else bad "code" mine
-            | _, _ => A "notinfragment"
+            | _, _, _ => A "notinfragment"
             end
         | None => A "undecodable"
         end
